@@ -253,6 +253,11 @@ FAULT_CLASSES = {
     "RuntimeError": RuntimeError, "Exception": Exception, "OSError": OSError, "IndexError": IndexError,
     "NotImplementedError": NotImplementedError, "AssertionError": AssertionError, "OddError": OddError,
     "QuietError": QuietError, "LookupError": LookupError, "FloatingPointError": FloatingPointError,
+    # classes with special meaning to iteration / import / warning machinery: a loop written with map(),
+    # next() or a generator must not mistake a model's failure for its own control flow
+    "StopIteration": StopIteration, "StopAsyncIteration": StopAsyncIteration, "AttributeError": AttributeError,
+    "MemoryError": MemoryError, "RecursionError": RecursionError, "EOFError": EOFError, "TimeoutError": TimeoutError,
+    "ImportError": ImportError, "NameError": NameError, "OverflowError": OverflowError, "UserWarning": UserWarning,
 }
 FAULT_CALLS = {"n": 0}
 
@@ -305,6 +310,40 @@ def _c03_ints(a) -> list:
     return [int(v) for v in a.astype(np.float64).ravel().tolist()]
 
 
+def _c03_charge_of_frame(c) -> np.ndarray:
+    """what the charge bucket holds when it keeps clusters: per-pixel sum of the clusters' `number`
+    (pixel = floor(position / pixel size); clusters outside the area are not collected) — recomputed
+    from the dataframe, independently of `Charge.array` / `convert_df_to_array`"""
+    geo, fr = c._geo, c._frame
+    arr = np.zeros((geo.row, geo.col), dtype=np.float64)
+    num = fr["number"].to_numpy(dtype=float)
+    rr = np.floor_divide(fr["position_ver"].to_numpy(dtype=float), geo.pixel_vert_size)
+    cc = np.floor_divide(fr["position_hor"].to_numpy(dtype=float), geo.pixel_horz_size)
+    for n, r, q in zip(num, rr, cc):
+        if 0 <= r < geo.row and 0 <= q < geo.col:
+            arr[int(r), int(q)] += n
+    return arr
+
+
+def _c03_clusters(detector, triples, via: str) -> None:
+    """put clusters [[number, row, col] …] at the centres of their pixels into the charge bucket"""
+    from pyxel.data_structure import Charge
+
+    geo = detector.geometry
+    n = len(triples)
+    z = np.zeros(n)
+    kw = dict(
+        particle_type="e", particles_per_cluster=np.array([float(t[0]) for t in triples]), init_energy=z,
+        init_ver_position=np.array([(t[1] + 0.5) * geo.pixel_vert_size for t in triples]),
+        init_hor_position=np.array([(t[2] + 0.5) * geo.pixel_horz_size for t in triples]),
+        init_z_position=z, init_ver_velocity=z, init_hor_velocity=z, init_z_velocity=z,
+    )
+    if via == "dataframe":
+        detector.charge.add_charge_dataframe(Charge.create_charges(**kw))
+    else:
+        detector.charge.add_charge(**kw)
+
+
 def c03_visible(detector) -> dict:
     """deep snapshot of the five buckets: None (holds nothing) or {dtype, shape, vals[, wl]};
     reads private fields only (observing must not convert or initialise anything)"""
@@ -312,7 +351,7 @@ def c03_visible(detector) -> dict:
     for b in C03_BUCKETS:
         c = getattr(detector, "_" + b)
         if b == "charge" and len(c._frame):
-            arr = np.array(c.array)  # (not used by the C03 writers)
+            arr = _c03_charge_of_frame(c)  # never through `Charge.array`: observing must not convert / cache
         else:
             arr = c._array
         if arr is None:
@@ -357,6 +396,32 @@ def c03_apply(detector, ops) -> None:
             c = getattr(detector, b)
             if c._array is not None and b != "charge":
                 c.array = np.array(c._array, copy=True)
+        elif kind == "clusters":  # ["clusters", "add_charge"|"dataframe", [[number, row, col] …]]
+            _c03_clusters(detector, op[2], op[1])
+        elif kind == "cl_scale":  # ["cl_scale", k]  every cluster's number × k, through set_frame_values
+            ch = detector.charge
+            ids = [int(i) for i in ch.frame.index]
+            nums = ch.get_frame_values(quantity="number", id_list=ids)
+            ch.set_frame_values(quantity="number", new_value_list=[float(v) * int(op[1]) for v in nums], id_list=ids)
+        elif kind == "cl_move":  # ["cl_move", drow, dcol]  every cluster moved (cyclically) to another pixel
+            ch, geo = detector.charge, detector.geometry
+            ids = [int(i) for i in ch.frame.index]
+            pv = ch.get_frame_values(quantity="position_ver", id_list=ids)
+            ph = ch.get_frame_values(quantity="position_hor", id_list=ids)
+            nr = [(int(np.floor_divide(v, geo.pixel_vert_size)) + int(op[1])) % rows for v in pv]
+            nc = [(int(np.floor_divide(v, geo.pixel_horz_size)) + int(op[2])) % cols for v in ph]
+            ch.set_frame_values(quantity="position_ver", new_value_list=[(r + 0.5) * geo.pixel_vert_size for r in nr], id_list=ids)
+            ch.set_frame_values(quantity="position_hor", new_value_list=[(q + 0.5) * geo.pixel_horz_size for q in nc], id_list=ids)
+        elif kind == "cl_remove":  # ["cl_remove", p]  remove the clusters located in pixel p (flat index)
+            ch, geo = detector.charge, detector.geometry
+            fr = ch.frame
+            rr = np.floor_divide(fr["position_ver"].to_numpy(dtype=float), geo.pixel_vert_size).astype(int)
+            qq = np.floor_divide(fr["position_hor"].to_numpy(dtype=float), geo.pixel_horz_size).astype(int)
+            ids = [int(i) for i, r, q in zip(fr.index, rr, qq) if r * cols + q == int(op[1])]
+            if ids and len(ids) < len(fr):
+                ch.remove_from_frame(ids)
+        elif kind == "collect":  # ["collect"]  what simple_collection does
+            detector.pixel.array += detector.charge.array
         elif kind == "scene":  # ["scene", k[, wavelengths]]  put a source into the scene
             k = int(op[1])
             wl = [float(v) for v in (op[2] if len(op) > 2 else [500.0, 600.0])]
